@@ -153,7 +153,11 @@ def outputs_of(op, Curve, Function, knots, P, extra):
         return list(j.ctrlpoints)
     if op == "add":
         d = Curve([lo] * 2 + [hi] * 2, extra["Q"])
-        return list((c + d).ctrlpoints) + list((c - d).ctrlpoints)
+        out = list((c + d).ctrlpoints) + list((c - d).ctrlpoints)
+        three = type(lo)(3)
+        for r in (c * 3, 3 * c, c / 3, c / three, c + 2, 2 - c, -c, c * three):   # scalars given as Python ints and in the knots' own class
+            out += list(r.ctrlpoints)
+        return out
     if op == "mul":
         d = Curve([lo] * 2 + [hi] * 2, extra["Q"])
         return list((c * d).ctrlpoints)
